@@ -59,6 +59,8 @@ impl Name {
             r is Ok && !(old(encoder).name_encoding is Compressed) ==> final(encoder).offset == old(encoder).offset + self.enc_len(),
             // C02: a name never takes more than 255 octets on the wire, compressed or not
             r is Ok ==> final(encoder).offset <= old(encoder).offset + 255,
+            // C02 (every name that can exist encodes): the length check rejects only names longer than 255 octets
+            r matches Err(ProtoError::Decode(DecodeError::DomainNameTooLong(_))) ==> self.enc_len() > 255,
 //%entry
         let ghost enc0 = *old(encoder);
 //%after "let labels = name_ref.iter();"
